@@ -126,12 +126,25 @@ def r1(ctx, rep):
         rep.bad("level:extra", f"Pratt table has {len(got_groups)} distinct levels, documented table {len(want)}",
                 file=f["file"], line=pr["l"], fn=f["path"])
     # nesting: term = unary(term); term = range(term); term.pratt(..)
+    # (name-independent: follow the receiver of `.pratt(..)` back through its definitions)
     seq = []
-    for st in f["body"]["s"]:
-        for n in walk(st):
-            if n.get("k") == "local" and show(n["pat"]) == "term" and n.get("init", {}).get("k") == "call":
-                seq.append(last_seg(show(n["init"]["f"])))
-    seq = [s for s in seq if s in ("unary", "range")]
+    par_ = guards.parents(f["body"])
+    cur = pr["r"]
+    for _ in range(8):
+        while cur is not None and cur.get("k") == "mcall" and cur["m"] in ("boxed", "clone", "labelled"):
+            cur = cur["r"]
+        if cur is None:
+            break
+        if cur.get("k") == "call" and last_seg(show(cur["f"])) in ("unary", "range") and cur["a"]:
+            seq.insert(0, last_seg(show(cur["f"])))
+            cur = cur["a"][0]
+            continue
+        if cur.get("k") == "path" and "::" not in cur["p"]:
+            defs = guards.visible_defs(par_, cur, cur["p"])
+            if defs:
+                cur = defs[0]
+                continue
+        break
     rep.check(seq == ["unary", "range"], "nesting",
               f"operand of the Pratt parser must be range(unary(term)) (unary binds tightest, then range); found wrapping order {seq}",
               file=f["file"], line=f["l"], fn=f["path"])
@@ -471,7 +484,7 @@ def r4(ctx, rep):
 
 # ---------------------------------------------------------------------------
 def r5(ctx, rep):
-    rep.rule("C02.R5", "needs_parentheses / translate_operand / wrap_in_parenthesis decision shape", floor=11)
+    rep.rule("C02.R5", "needs_parentheses / translate_operand / wrap_in_parenthesis decision shape", floor=8)
     syn = ctx.syn
     f = syn.fn("gen_expr::needs_parentheses", crate="prqlc")
     m = None
@@ -489,22 +502,37 @@ def r5(ctx, rep):
         rows[last_seg(head) if isinstance(head, str) else str(head)] = (tables.arm_value(body), line)
     rep.check(rows.get("Greater", (None,))[0] is False, "arm:Greater", f"stronger child must not be parenthesised; arm is {rows.get('Greater')}", file=f["file"], line=m["l"], fn=f["path"])
     rep.check(rows.get("Less", (None,))[0] is True, "arm:Less", f"weaker child must be parenthesised; arm is {rows.get('Less')}", file=f["file"], line=m["l"], fn=f["path"])
-    eq = rows.get("Equal", (None, None))[0]
-    want = "!((rule_3a || rule_3b_left) || rule_3b_right)"
-    rep.check(isinstance(eq, tuple) and eq[1].replace(" ", "") == want.replace(" ", ""), "arm:Equal",
-              f"equal strength: parenthesise unless an associativity rule applies; arm is {eq}", file=f["file"], line=m["l"], fn=f["path"])
-    # the three rule locals
-    locs = {}
-    for st in f["body"]["s"]:
-        if st.get("k") == "local":
-            locs[show(st["pat"])] = st.get("init")
-    r3a = locs.get("rule_3a")
-    ok = r3a is not None and r3a.get("k") == "macro" and r3a["n"] == "matches" and show(r3a["a"][0]) == "parent_associativity" and pat_head(r3a["pat"]) == "Associativity::Both"
-    rep.check(ok, "rule_3a", "rule_3a must be matches!(parent_associativity, Associativity::Both)", file=f["file"], line=f["l"], fn=f["path"])
-    rep.check(show(locs.get("rule_3b_left")) == "(is_left && parent_associativity.left_associative())", "rule_3b_left",
-              f"rule_3b_left must be is_left && left_associative(), found {show(locs.get('rule_3b_left'))}", file=f["file"], line=f["l"], fn=f["path"])
-    rep.check(show(locs.get("rule_3b_right")) == "(!is_left && parent_associativity.right_associative())", "rule_3b_right",
-              f"rule_3b_right must be !is_left && right_associative(), found {show(locs.get('rule_3b_right'))}", file=f["file"], line=f["l"], fn=f["path"])
+    # equal strength: truth table of the Equal arm over (associativity, side); formula and local names are free
+    import alpha
+    import boolfn
+    inl = alpha.Inliner(f)
+    eq_body = None
+    for arm in m["arms"]:
+        if last_seg(str(pat_head(arm["pat"]))) == "Equal":
+            eq_body = arm["body"]
+    bad_rows = []
+    for assoc in ("Left", "Right", "Both"):
+        for is_left in (True, False):
+            def atom(t, assoc=assoc, is_left=is_left):
+                if t == "is_left":
+                    return is_left
+                if t == "parent_associativity":
+                    return "Associativity::" + assoc
+                if t == "parent_associativity.left_associative()":
+                    return assoc in ("Left", "Both")
+                if t == "parent_associativity.right_associative()":
+                    return assoc in ("Right", "Both")
+                return None
+            want = not (assoc == "Both" or (is_left and assoc in ("Left", "Both")) or ((not is_left) and assoc in ("Right", "Both")))
+            try:
+                got = boolfn.ev(eq_body, atom, inl)
+            except boolfn.Unknown as e:
+                got = f"not evaluable ({e})"
+            if got != want:
+                bad_rows.append((assoc, "left" if is_left else "right", got))
+    rep.check(eq_body is not None and not bad_rows, "arm:Equal",
+              f"at equal strength a child needs parentheses unless the parent is Both-associative, or the child is on the side the parent associates to; rows (associativity, side, got) that differ: {bad_rows}",
+              file=f["file"], line=m["l"], fn=f["path"])
     # Associativity helpers
     for name, want_set in (("left_associative", {"Associativity::Left", "Associativity::Both"}),
                            ("right_associative", {"Associativity::Right", "Associativity::Both"})):
@@ -516,9 +544,13 @@ def r5(ctx, rep):
     t = syn.fn("gen_expr::translate_operand", crate="prqlc")
     ifs = [n for n in walk(t["body"]) if n.get("k") == "if"]
     ok = False
+    import alpha as _alpha
+    it = _alpha.Inliner(t)
+    tp = [show(x.get("pat", x)).split(":")[0].strip() if isinstance(x, dict) else str(x).split(":")[0].strip() for x in t.get("params", [])]
     for i in ifs:
-        c = show(i["c"])
-        if c.startswith("needs_parentheses(&expr, is_left, parent_strength, parent_associativity)"):
+        c = it.show(i["c"])
+        # needs_parentheses(&<translated child>, <the operand's side, strength and associativity parameters, in order>)
+        if len(tp) >= 4 and c.startswith("needs_parentheses(&translate_expr(") and c.endswith(f", {tp[1]}, {tp[2]}, {tp[3]})"):
             th = show(tail_expr(i["t"]))
             el = show(tail_expr(i["e"])) if i.get("e") else ""
             ok = "wrap_in_parenthesis" in th and "wrap_in_parenthesis" not in el
@@ -558,15 +590,16 @@ def r6(ctx, rep):
     for nm, want in P["null_tests"].items():
         rep.check(got.get(nm) == want, f"process_null:{nm}", f"process_null maps `{nm}` to {got.get(nm)}, expected {want}", file=f["file"], line=f["l"], fn=f["path"])
     # operand selection: the non-null one
-    loc = None
-    for st in f["body"]["s"]:
-        if st.get("k") == "local" and show(st["pat"]) == "operand":
-            loc = st["init"]
+    # (name-independent: the two operands are whatever names the function gives to args[0] and args[1])
     ok = False
-    if loc is not None and loc.get("k") == "if":
+    for loc in walk(f["body"]):
+        if loc.get("k") != "if":
+            continue
         c = loc["c"]
-        if c.get("k") == "macro" and c["n"] == "matches" and show(c["a"][0]) == "a.kind" and "Null" in show(c["pat"]):
-            ok = show(tail_expr(loc["t"])) == "b" and show(tail_expr(loc["e"])) == "a"
+        if c.get("k") == "macro" and c["n"] == "matches" and "Null" in show(c.get("pat")) and show(c["a"][0]).endswith(".kind"):
+            tested = show(c["a"][0])[:-len(".kind")]
+            th, el = show(tail_expr(loc["t"])), show(tail_expr(loc["e"])) if loc.get("e") is not None else ""
+            ok = ok or (el == tested and th != tested and th.isidentifier())
     rep.check(ok, "process_null:operand", "process_null must test the operand that is NOT the null literal", file=f["file"], line=f["l"], fn=f["path"])
     # dispatcher
     t = syn.fn("gen_expr::translate_expr", crate="prqlc")
